@@ -143,7 +143,7 @@ int main()
         "keys_stay_unique": "IMP(verif_gi < verif_gj && verif_gj < %s && verif_hi == verif_sp_src_i && verif_hj == verif_sp_src_j, %s[verif_gi].first != %s[verif_gj].first)" % (N, B, B)})
     U.fn("fm_erase", variant="bounded", requires=[INV, KEYSEP, "%s <= %d" % (N, NB), "__verif_exc == 0"] + OLDREQ, assigns=[V, "__CPROVER_object_whole(%s)" % B, "__verif_exc"] + SPG, frees=[B],
          pre_call=map_harness(bound=NB) + "  __CPROVER_assume(in_n <= %d);\n" % NB + olds, ptr_requires=True, unwind=NB + 2, replay_native=ERASE_REPLAY, ensures=ER)
-    return [U, params_unit()]
+    return [U, params_unit(), paramlist_unit()]
 
 
 PSTUBS = """
@@ -159,6 +159,80 @@ int *any_get_int(Any *self) { __CPROVER_assert(g_param != 0 && self == &g_param-
 float *any_get_float(Any *self) { __CPROVER_assert(g_param != 0 && self == &g_param->data && g_is_float, "get<float>() only on a value that is<float>()"); return &g_float_val; }
 Any *any_assign_int(Any *self, int rhs) { g_assigned_to = self; g_assigned_val = rhs; g_assign_calls++; return self; }
 """
+
+
+def paramlist_unit():
+    """ParameterizedObject's parameter list: BOUNDED exact checks (at most 3 parameters with names of at most 2 characters) on bounded
+    code models of std::string / std::vector and the exact reference-counting model of std::shared_ptr; utility::Any is opaque here."""
+    PN = 3
+    SP = "std_shared_ptr_ParameterizedObject_Param"
+    helpers = """
+Param *g_p[%(n)d]; verif_ctrl *g_c[%(n)d]; unsigned long g_n0;     /* ghost: the parameter list on entry */
+std_basic_string_char g_name[%(n)d];                                /* ghost: the parameters' names on entry (a removed parameter is freed) */
+static _Bool str_is(std_basic_string_char *a, std_basic_string_char *name) { unsigned long i; if (a->n != name->n) return 0; for (i = 0; i < name->n && i < 4; i++) if (a->b[i] != name->b[i]) return 0; return 1; }
+static _Bool name_is(Param *p, std_basic_string_char *name) { unsigned long i; if (p->name.n != name->n) return 0; for (i = 0; i < name->n && i < 4; i++) if (p->name.b[i] != name->b[i]) return 0; return 1; }
+/* position of the FIRST parameter with that name in the list on entry, or -1 */
+static long first_old(std_basic_string_char *name) { long k; for (k = 0; k < (long)g_n0 && k < %(n)d; k++) if (str_is(&g_name[k], name)) return k; return -1; }
+static _Bool list_same(ParameterizedObject *o) { unsigned long k; if (o->paramList.n != g_n0) return 0; for (k = 0; k < g_n0 && k < %(n)d; k++) if (o->paramList.b[k].p != g_p[k] || o->paramList.b[k].c != g_c[k]) return 0; return 1; }
+static _Bool prefix_same(ParameterizedObject *o, unsigned long m) { unsigned long k; for (k = 0; k < m && k < %(n)d; k++) if (o->paramList.b[k].p != g_p[k] || o->paramList.b[k].c != g_c[k]) return 0; return 1; }
+static _Bool is_old(Param *p) { unsigned long k; for (k = 0; k < g_n0 && k < %(n)d; k++) if (g_p[k] == p) return 1; return 0; }
+static _Bool removed_at(ParameterizedObject *o, long idx) { unsigned long k; if (o->paramList.n + 1 != g_n0) return 0; for (k = 0; k + 1 < g_n0 && k < %(n)d; k++) if (o->paramList.b[k].p != g_p[(long)k < idx ? k : k + 1]) return 0; return 1; }
+static _Bool all_unqueried(void) { unsigned long k; for (k = 0; k < g_n0 && k < %(n)d; k++) if (g_p[k]->query != 0) return 0; return 1; }
+""" % dict(n=PN)
+    L = Unit("c10_paramlist", "units/c10_paramlist.cpp", helpers=helpers, opts=dict(tracked_vec=True, tracked_str=True, bounded_str=4, bounded_vec=PN + 1, opaque_extra=r"std::unique_ptr<"))
+    L.stub("utility::Any inside Param", "opaque in this unit (its unique_ptr member is not modelled): construction/destruction of the parameter's value are no-ops here; the typed reads are covered by unit c10_params, Any itself by C09")
+    pre = "  unsigned long in_n = nondet_ulong(); __CPROVER_assume(in_n <= %d); o_@0.paramList.n = in_n; o_@0.paramList.cap = %d; g_n0 = in_n;\n" % (PN, PN + 1)
+    for k in range(PN):
+        pre += ("  { Param *pp = (Param *)verif_malloc(sizeof(Param)); verif_ctrl *cc = (verif_ctrl *)verif_malloc(sizeof(verif_ctrl)); cc->cnt = 1; unsigned long in_l%(k)d = nondet_ulong(); __CPROVER_assume(in_l%(k)d <= 2);"
+                " pp->name.n = in_l%(k)d; pp->name.cap = 4; char in_c%(k)d0 = nondet_char(), in_c%(k)d1 = nondet_char(); pp->name.b[0] = in_c%(k)d0; pp->name.b[1] = in_c%(k)d1; pp->query = nondet__Bool();"
+                " g_p[%(k)d] = pp; g_c[%(k)d] = cc; g_name[%(k)d] = pp->name; o_@0.paramList.b[%(k)d].p = pp; o_@0.paramList.b[%(k)d].c = cc; }\n" % dict(k=k))
+    pre += "  unsigned long in_ln = nondet_ulong(); __CPROVER_assume(in_ln <= 2); o_@1.n = in_ln; o_@1.cap = 4; char in_d0 = nondet_char(), in_d1 = nondet_char(); o_@1.b[0] = in_d0; o_@1.b[1] = in_d1;\n"
+    REQ = ["g_n0 <= %d && list_same($0)" % PN, "__verif_exc == 0"]
+    for k in range(PN):
+        REQ.append("__CPROVER_rw_ok(g_p[%d], sizeof(Param)) && __CPROVER_rw_ok(g_c[%d], sizeof(verif_ctrl)) && g_c[%d]->cnt == 1 && g_p[%d]->name.n <= 2 && name_is(g_p[%d], &g_name[%d])" % (k, k, k, k, k, k))
+    acc = dict(unwind=PN + 4, timeout=600, solver=["--sat-solver", "cadical"], noalias=True)
+    FIND_REPLAY = """
+int main()
+{
+  const char cn[3][3] = {{IN_in_c00, IN_in_c01, 0}, {IN_in_c10, IN_in_c11, 0}, {IN_in_c20, IN_in_c21, 0}};
+  const unsigned long ln[3] = {IN_in_l0, IN_in_l1, IN_in_l2};
+  const char dn[3] = {IN_in_d0, IN_in_d1, 0};
+  struct PO : rkcommon::utility::ParameterizedObject { using ParameterizedObject::findParam; using ParameterizedObject::params_begin; using ParameterizedObject::params_end; } o;
+  std::vector<std::string> names; std::vector<Param *> ptrs;
+  for (unsigned long k = 0; k < (unsigned long)IN_in_n && k < 3; k++) { names.push_back(std::string(cn[k], ln[k] < 2 ? ln[k] : 2)); o.paramList.push_back(std::make_shared<Param>(names.back())); ptrs.push_back(o.paramList.back().get()); }
+  std::string name(dn, (unsigned long)IN_in_ln < 2 ? (unsigned long)IN_in_ln : 2);
+  long first = -1; for (unsigned long k = 0; k < names.size(); k++) if (first < 0 && names[k] == name) first = (long)k;
+  bool ok = true;
+  %(body)s
+  printf("%(what)s(\\"%%s\\") on %%lu parameter(s), first match at %%ld: %%s\\n", name.c_str(), (unsigned long)names.size(), first, ok ? "as specified" : "NOT as specified");
+  printf("REPLAY RESULT: %%s\\n", ok ? "not reproduced" : "violation reproduced on real code");
+  return ok ? 0 : 1;
+}
+"""
+    find_body = """bool add = IN_in_addIfNotExist; Param *r = o.findParam(name, add);
+  if (first >= 0) ok = r == ptrs[first] && o.paramList.size() == ptrs.size();
+  else if (!add) ok = r == nullptr && o.paramList.size() == ptrs.size();
+  else ok = o.paramList.size() == ptrs.size() + 1 && r == o.paramList.back().get() && r && r->name == name && !r->query;
+  for (unsigned long k = 0; ok && k < ptrs.size(); k++) ok = o.paramList[k].get() == ptrs[k];"""
+    rem_body = """o.removeParam(name);
+  if (first < 0) { ok = o.paramList.size() == ptrs.size(); for (unsigned long k = 0; ok && k < ptrs.size(); k++) ok = o.paramList[k].get() == ptrs[k]; }
+  else { ok = o.paramList.size() + 1 == ptrs.size(); for (unsigned long k = 0; ok && k + 1 < ptrs.size(); k++) ok = o.paramList[k].get() == ptrs[(long)k < first ? k : k + 1]; }"""
+    L.fn("pl_findParam", pre_call=pre, requires=REQ + ["$1->n <= 2"], assigns=["$0->paramList", "__verif_exc"], replay_native=FIND_REPLAY % dict(body=find_body, what="findParam"), ensures={
+        "never_throws": "__verif_exc == 0",
+        "an_existing_name_returns_the_first_parameter_with_it_and_changes_nothing": "IMP(first_old($1) >= 0, RET == g_p[first_old($1) >= 0 && first_old($1) < %d ? first_old($1) : 0] && list_same($0))" % PN,
+        "an_absent_name_without_add_returns_null_and_changes_nothing": "IMP(first_old($1) < 0 && !$2, RET == 0 && list_same($0))",
+        "an_absent_name_with_add_appends_one_fresh_unqueried_parameter_with_that_name":
+            "IMP(first_old($1) < 0 && $2, $0->paramList.n == g_n0 + 1 && prefix_same($0, g_n0) && RET != 0 && !is_old(RET) && RET == $0->paramList.b[g_n0 < %d ? g_n0 : 0].p && name_is(RET, $1) && RET->query == 0 && $0->paramList.b[g_n0 < %d ? g_n0 : 0].c->cnt == 1)" % (PN + 1, PN + 1)}, **acc)
+    FREES = ["g_p[%d]" % k for k in range(PN)] + ["g_c[%d]" % k for k in range(PN)]
+    L.fn("pl_removeParam", pre_call=pre, requires=REQ + ["$1->n <= 2"], assigns=["$0->paramList", "__verif_exc"] + ["__CPROVER_object_whole(g_c[%d])" % k for k in range(PN)] + ["__CPROVER_object_whole(g_p[%d])" % k for k in range(PN)], frees=FREES,
+         replay_native=FIND_REPLAY % dict(body=rem_body, what="removeParam"), ensures={
+        "never_throws": "__verif_exc == 0",
+        "an_absent_name_changes_nothing": "IMP(first_old($1) < 0, list_same($0))",
+        "the_first_parameter_with_the_name_is_removed_and_the_others_keep_their_order": "IMP(first_old($1) >= 0, removed_at($0, first_old($1)))"}, **acc)
+    pre0 = pre[:pre.index("  unsigned long in_ln")]
+    L.fn("pl_resetAll", pre_call=pre0, requires=REQ, assigns=["__verif_exc"] + ["g_p[%d]->query" % k for k in range(PN)], ensures={
+        "every_parameter_is_unqueried_afterwards_and_the_list_is_unchanged": "__verif_exc == 0 && all_unqueried() && list_same($0)"}, **acc)
+    return L
 
 
 def params_unit():
@@ -214,9 +288,9 @@ int main()
 META = dict(
     level="proof",
     level_text="FlatMap<int,int>'s lookup (both overloads), at (x2), operator[], contains, at_index (x2), size, empty, clear and the begin/end family are extracted from /repo and proved by CBMC function contracts for maps of ANY size (up to 2^40 entries): lookup returns the first entry with the key or end (loop contract on the std::find_if reference model), at throws std::out_of_range exactly when no entry has the key and otherwise returns the value slot of the first such entry, operator[] returns the slot of an entry with the key, leaves a present key's map unchanged, appends an absent key last with a value-initialised value while every earlier entry keeps its position and value, and keeps keys unique; at_index(i) is entry i in insertion order or out_of_range. Facts about all entries are proved at arbitrary ghost positions (verif_gi, verif_gj). erase is proved for maps of ANY size with loop contracts on a ghost-instrumented reference model of std::stable_partition: every entry without the key survives (at the recorded destination), survivors keep their relative order, every remaining entry is an old entry without the key (angelic ghost source), sources increase, no entry with the key remains, the size is the number kept, keys stay unique; the same operation is ALSO checked, for replayable counterexamples, by an exact bounded variant (maps of at most 4 entries quick / 6 thorough, loops unwound) against 'the result is the order-preserving filter of the old entries'.",
-    level_note="fm_erase#bounded is a bounded stand-in kept for native replay; the proof of erase is the unbounded fm_erase (265 s, CaDiCaL). std::vector is a value-tracking MODEL whose reallocation step is an assumed contract instantiated at the ghost positions; std::find_if/std::stable_partition/std::partition are reference models (C code). Only the FlatMap<int,int> instantiation; the key reference must not point into the map's own storage (precondition). ParameterizedObject: the typed-read / query-flag logic of getParam<int|float>, hasParam and setParam<int> IS proved (unit c10_params) against interface stubs for findParam and utility::Any (is<T>/get<T>/operator=): a missing or wrongly typed parameter yields the default and leaves the query flag alone, an exactly typed one returns the value and marks it queried, setParam asks findParam to create and does not mark queried. findParam/removeParam themselves (lookup by std::string name in a vector of shared_ptr) and resetAllParamQueryStatus are NOT verified. Reverse iterators are not under contract. Histories are covered by induction over operations: every operation preserves the representation invariant (well-formed storage, unique keys) that the next one requires.",
+    level_note="fm_erase#bounded is a bounded stand-in kept for native replay; the proof of erase is the unbounded fm_erase (265 s, CaDiCaL). std::vector is a value-tracking MODEL whose reallocation step is an assumed contract instantiated at the ghost positions; std::find_if/std::stable_partition/std::partition are reference models (C code). Only the FlatMap<int,int> instantiation; the key reference must not point into the map's own storage (precondition). ParameterizedObject: the typed-read / query-flag logic of getParam<int|float>, hasParam and setParam<int> IS proved (unit c10_params) against interface stubs for findParam and utility::Any (is<T>/get<T>/operator=): a missing or wrongly typed parameter yields the default and leaves the query flag alone, an exactly typed one returns the value and marks it queried, setParam asks findParam to create and does not mark queried. findParam (first match / add-if-missing appends one fresh unqueried parameter / null), removeParam (removes the first match, the others keep their order, nothing else changes) and resetAllParamQueryStatus are checked by BOUNDED exact contracts (unit c10_paramlist: at most 3 parameters with names of at most 2 characters; bounded code models of std::string and std::vector, exact reference counting for std::shared_ptr; counterexamples replay natively). Reverse iterators are not under contract. Histories are covered by induction over operations: every operation preserves the representation invariant (well-formed storage, unique keys) that the next one requires.",
     explanation="CBMC function contracts with ghost-index sequence specifications; loop contracts on the find_if and (ghost-instrumented) stable_partition models; an additional bounded exact variant of erase for replay.",
     assumptions=["std::vector value-tracking model (reallocation = assumed contract at ghost indices)", "std::find_if / std::stable_partition / std::partition reference models", "key reference does not alias the map's storage", "map holds fewer than 2^40 entries", "allocation never fails"],
-    bounded=["fm_erase#bounded (additional exact variant for replay): maps of at most 4 (quick) / 6 (thorough) entries, loops unwound NB+2 times with unwinding assertions"],
-    unverified=["ParameterizedObject::findParam / removeParam / resetAllParamQueryStatus (name lookup)", "utility::Any behind getParam (stubbed here; partially covered by C09)", "reverse iterators", "other KEY/VALUE instantiations (std::string keys)", "reserve (no-op in the model)"],
+    bounded=["ParameterizedObject::findParam / removeParam / resetAllParamQueryStatus: at most 3 parameters, names of at most 2 characters, unwind 7", "fm_erase#bounded (additional exact variant for replay): maps of at most 4 (quick) / 6 (thorough) entries, loops unwound NB+2 times with unwinding assertions"],
+    unverified=["utility::Any behind getParam (stubbed here; partially covered by C09)", "reverse iterators", "other KEY/VALUE instantiations (std::string keys)", "reserve (no-op in the model)"],
 )
